@@ -269,3 +269,5 @@ def run(chk, facts, tier):
     from rules import shared_pipe
     shared_pipe.check(chk, facts, "C13.PIPE", ["cedar_policy_core::authorizer::Authorizer::is_authorized_core_internal",
                                                "cedar_policy_core::authorizer::partial_response::PartialResponse::reauthorize"], "every policy of the set / every residual policy")
+    from rules import c13_ops
+    c13_ops.check(chk, facts)
